@@ -1,8 +1,13 @@
 (* C07 — the runtime half: the hand-shake between Run's shutdown and the renderer's ticker goroutine, on the
    control skeleton (every cause, every program point, every schedule). *)
-From Coq Require Import List Bool NArith Arith.
+From Coq Require Import List Bool NArith Arith String.
 Import ListNotations.
 From BT Require Import Model.Skel Model.SkelTie Proof.SkelCert Proof.SkelProofs Proof.SkelExtra.
+
+Theorem C07_skel_tie : G = guards_of_gen /\
+  shapes_ok_for ["shutdown"; "standardRenderer.start"; "standardRenderer.stop"; "standardRenderer.kill"; "standardRenderer.listen"]%string = true.
+Proof. vm_compute. repeat split. Qed.
+Print Assumptions C07_skel_tie.
 
 (* when restoreTerminalState runs, and at every return, the ticker goroutine has exited: no frame is painted after
    stop()'s final flush *)
